@@ -119,6 +119,24 @@ fn flat_ontology(ids: &[u32]) -> Ontology {
     b.connect_all_terms().calculate_information_content().unwrap().build_minimal()
 }
 
+/// the same flat ontology through the v3 decoder, a third of the terms flagged obsolete (an obsolete
+/// term is an ordinary member of a set: the user's similarity decides what it scores)
+fn flat_ontology_with_obsolete(ids: &[u32], rng: &mut Rng) -> Option<Ontology> {
+    use crate::facts::{FactSet, TermFact};
+    let mut f = FactSet::default();
+    f.terms.push(TermFact { id: 1, name: "root".into(), obsolete: false, replaced_by: None });
+    f.terms.push(TermFact { id: 118, name: "phenotype".into(), obsolete: false, replaced_by: None });
+    f.edges.push((118, 1));
+    for id in ids {
+        if *id == 1 || *id == 118 {
+            continue;
+        }
+        f.terms.push(TermFact { id: *id, name: format!("t{id}"), obsolete: rng.chance(1, 3), replaced_by: None });
+        f.edges.push((*id, 1));
+    }
+    crate::drive::via_bytes(&f, 3).1.ok()
+}
+
 impl C05 {
     fn matrix_case(&self, r: usize, c: usize, rng: &mut Rng, out: &mut CaseOut) {
         let mode = rng.next_u64();
@@ -185,7 +203,17 @@ impl C05 {
             ids = set.into_iter().collect();
         }
         assert_eq!(ids.len(), n_terms);
-        let ont = flat_ontology(&ids);
+        let ont = if rng.chance(1, 3) {
+            match flat_ontology_with_obsolete(&ids, rng) {
+                Some(o) => {
+                    out.bucket("sets_with_obsolete_members");
+                    o
+                }
+                None => flat_ontology(&ids),
+            }
+        } else {
+            flat_ontology(&ids)
+        };
         let sim = TableSim { seed: rng.next_u64(), symmetric: rng.chance(1, 3), mode: rng.next_u64(), calls: RefCell::new(vec![]) };
         let cached = CachedSimilarity::new(ByRef(&sim));
         let n_pairs = rng.urange(2, 6);
@@ -396,7 +424,7 @@ impl Monitor for C05 {
         v
     }
     fn mandatory_buckets(&self, _tier: Tier) -> Vec<String> {
-        ["shape/square", "shape/vector", "shape/rectangular", "shape/empty", "similarity/asymmetric", "similarity/symmetric", "set_shape/empty_side", "set_shape/rectangular", "set_shape/square", "same_object_on_both_sides", "huge/more_than_65535_vs_empty", "huge/sizes_sum_above_65535"]
+        ["shape/square", "shape/vector", "shape/rectangular", "shape/empty", "similarity/asymmetric", "similarity/symmetric", "set_shape/empty_side", "set_shape/rectangular", "set_shape/square", "same_object_on_both_sides", "sets_with_obsolete_members", "huge/more_than_65535_vs_empty", "huge/sizes_sum_above_65535"]
             .iter()
             .map(|s| (*s).to_string())
             .collect()
